@@ -1,6 +1,21 @@
 package main
 
-import "fmt"
+import (
+	"bufio"
+	"context"
+	"crypto/tls"
+	"encoding/base64"
+	"encoding/json"
+	"fmt"
+	"net"
+	"strings"
+	"sync/atomic"
+	"time"
+	"verifharness/memconn"
+
+	lime "github.com/takenet/lime-go"
+	"verifharness/coqfmt"
+)
 
 const hsHeader = "From Coq Require Import List String.\nImport ListNotations.\nOpen Scope string_scope.\nFrom Lime Require Import Base.Res Hs.Types Hs.Server Corr.HsServer "
 
@@ -40,11 +55,19 @@ func runServerProp(env *Env, prop string, o enumOpts, rule string, nontrivial fu
 		srv := newScriptServer(rc.Conf, rc.Oracle)
 		defer srv.Close()
 		c := &SCase{Conf: rc.Conf, Oracle: rc.Oracle, Script: rc.Script, Obs: srv.run(rc.Script)}
-		env.Add(c.Coq(), c)
+		if wrapCase != nil {
+			env.Add(wrapCase(c.Coq()), c)
+		} else {
+			env.Add(c.Coq(), c)
+		}
 		return nil
 	}
 	enumerateServerScripts(env, o, func(c *SCase) {
-		env.Add(c.Coq(), c)
+		if wrapCase != nil {
+			env.Add(wrapCase(c.Coq()), c)
+		} else {
+			env.Add(c.Coq(), c)
+		}
 		if nontrivial(c) {
 			env.NonTrivial(c.Coq())
 		}
@@ -85,6 +108,25 @@ func init() {
 		})
 	})
 	register("C09", func(env *Env) error {
+		wrapCase = func(t string) string { return "(KScript " + t + ")" }
+		defer func() { wrapCase = nil }()
+		var rp pipelinedCase
+		if ok, _ := env.ReplayDesc(&rp); ok && rp.Pipelined {
+			env.Header = hsHeader + "Corr.C09."
+			c := runPipelined()
+			env.Add(c.coq(), c)
+			return nil
+		}
+		if env.Replay == "" {
+			defer func() {
+				for i := 0; i < 3; i++ {
+					c := runPipelined()
+					env.Add(c.coq(), c)
+					env.Count("pipelined-cleartext-before-tls")
+					env.NonTrivial(fmt.Sprintf("pipelined-%d", i))
+				}
+			}()
+		}
 		o := enumOpts{confs: confsByName("none-or-tls", "tls-first", "gzip-configured", "tls-only", "tls-handshake-fails", "tls-only-no-config", "tls-twice", "plain-only", "gzip-only", "tls-only-gzip-only", "no-enc-options"), oracles: serverOracles[:env.Pick(1, 3)], alphabet: serverAlphabet, depth: env.Pick(3, 4)}
 		return runServerProp(env, "C09", o, "Non-trivial: a negotiation stage took place.", func(c *SCase) bool { return hasState(c, "negotiating") })
 	})
@@ -94,6 +136,231 @@ func init() {
 	})
 	register("C14", func(env *Env) error {
 		o := enumOpts{confs: serverConfs[:env.Pick(6, len(serverConfs))], oracles: serverOracles[:env.Pick(2, 3)], alphabet: serverAlphabet, depth: env.Pick(3, 4)}
-		return runServerProp(env, "C14", o, "Non-trivial: the handshake ended without a session (failed, aborted or callback error).", func(c *SCase) bool { return !hasState(c, "established") && (c.Obs.Closed || c.Obs.Ended) })
+		wrapCase = func(t string) string { return "(KScript " + t + ")" }
+		defer func() { wrapCase = nil }()
+		var ra abruptCase
+		if ok, _ := env.ReplayDesc(&ra); ok && ra.Abrupt != "" {
+			env.Header = hsHeader + "Corr.C14."
+			c := runAbrupt(ra.Kind, ra.Abrupt)
+			env.Add(c.coq(), c)
+			return nil
+		}
+		if err := runServerProp(env, "C14", o, "Non-trivial: the handshake ended without a session (failed, aborted or callback error).", func(c *SCase) bool { return !hasState(c, "established") && (c.Obs.Closed || c.Obs.Ended) }); err != nil {
+			return err
+		}
+		if env.Replay != "" {
+			return nil
+		}
+		// a peer that sends one envelope that cannot start a session and vanishes at once, on every transport
+		for _, kind := range []string{"inproc", "tcp", "ws"} {
+			for _, first := range abruptFirsts {
+				c := runAbrupt(kind, first)
+				env.Add(c.coq(), c)
+				env.Count("abrupt:" + kind)
+				env.NonTrivial(kind + "/" + first)
+			}
+		}
+		return nil
 	})
+}
+
+// wrapCase, when set, wraps the printed script case in the property's own case constructor.
+var wrapCase func(string) string
+
+type abruptCase struct {
+	Abrupt string `json:"abrupt"` // the state of the only envelope the peer sends
+	Kind   string `json:"kind"`
+	Est    int    `json:"est_cb"`
+	Fin    int    `json:"fin_cb"`
+	Ended  bool   `json:"ended"`
+}
+
+// "<state>" carries a session id, "<state>:noid" none (as a first envelope should)
+var abruptFirsts = []string{"finishing", "established", "negotiating", "authenticating", "failed", "finished",
+	"finishing:noid", "established:noid", "negotiating:noid", "authenticating:noid", "failed:noid", "finished:noid", "new:noid"}
+
+func (c *abruptCase) coq() string {
+	return coqfmt.App("KAbrupt", coqfmt.Nat(c.Est), coqfmt.Nat(c.Fin), coqfmt.Bool(c.Ended))
+}
+
+// runAbrupt serves one connection whose peer sends a single session envelope in the given state and closes
+// at once, without waiting for anything.
+func runAbrupt(kind, first string) *abruptCase {
+	c := &abruptCase{Abrupt: first, Kind: kind}
+	var est, fin int32
+	cfg := lime.NewServerConfig()
+	cfg.Node = serverNode
+	cfg.SchemeOpts = []lime.AuthenticationScheme{lime.AuthenticationSchemeGuest}
+	cfg.EncryptOpts = []lime.SessionEncryption{lime.SessionEncryptionNone}
+	cfg.Authenticate = allowAll
+	cfg.Established = func(string, *lime.ServerChannel) { atomic.AddInt32(&est, 1) }
+	cfg.Finished = func(string) { atomic.AddInt32(&fin, 1) }
+	var l lime.TransportListener
+	var addr net.Addr
+	switch kind {
+	case "inproc":
+		inprocMu.Lock()
+		a := nextInprocAddr()
+		inprocMu.Unlock()
+		l, addr = lime.NewInProcessTransportListener(a), a
+	case "tcp":
+		a, _ := freeTCPAddr()
+		l, addr = lime.NewTCPTransportListener(nil), a
+	default:
+		a, _ := freeTCPAddr()
+		l, addr = lime.NewWebsocketTransportListener(nil), a
+	}
+	srv := lime.NewServer(cfg, &lime.EnvelopeMux{}, lime.NewBoundListener(l, addr))
+	done := make(chan error, 1)
+	go func() { done <- srv.ListenAndServe() }()
+	ctx, cancel := context.WithTimeout(context.Background(), 5*time.Second)
+	defer cancel()
+	id, state := "x1", first
+	if strings.HasSuffix(first, ":noid") {
+		id, state = "", strings.TrimSuffix(first, ":noid")
+	}
+	ses := &lime.Session{Envelope: lime.Envelope{ID: id}, State: lime.SessionState(state)}
+	switch kind {
+	case "tcp":
+		var conn net.Conn
+		waitUntil(3*time.Second, func() bool {
+			var err error
+			conn, err = net.Dial("tcp", addr.String())
+			return err == nil
+		})
+		if conn != nil {
+			if id == "" {
+				_, _ = conn.Write([]byte(fmt.Sprintf(`{"state":"%s"}`+"\n", state)))
+			} else {
+				_, _ = conn.Write([]byte(fmt.Sprintf(`{"id":"x1","state":"%s"}`+"\n", state)))
+			}
+			_ = conn.Close()
+		}
+	default:
+		var t lime.Transport
+		waitUntil(3*time.Second, func() bool {
+			var err error
+			if kind == "inproc" {
+				t, err = lime.DialInProcess(addr.(lime.InProcessAddr), 4)
+			} else {
+				t, err = lime.DialWebsocket(ctx, "ws://"+addr.String(), nil, nil)
+			}
+			return err == nil
+		})
+		if t != nil {
+			_ = t.Send(ctx, ses)
+			_ = t.Close()
+		}
+	}
+	// the serving goroutine was started, and then has to end (a TCP handshake notices within its poll interval)
+	time.Sleep(5 * time.Millisecond)
+	c.Ended = waitUntil(7*time.Second, func() bool { return servingGoroutines() == 0 })
+	time.Sleep(2 * time.Millisecond)
+	c.Est, c.Fin = int(atomic.LoadInt32(&est)), int(atomic.LoadInt32(&fin))
+	for i := 0; i < 2000; i++ {
+		if err := srv.Close(); err == nil || err.Error() != "server not listening" {
+			break
+		}
+		time.Sleep(time.Millisecond)
+	}
+	select {
+	case <-done:
+	case <-time.After(8 * time.Second):
+	}
+	return c
+}
+
+type pipelinedCase struct {
+	Pipelined bool   `json:"pipelined"`
+	Clear     int    `json:"cleartext_identity"`
+	Auths     []int  `json:"authenticated"`
+	Est       int    `json:"established_for"` // 0 = no session established
+	Note      string `json:"note,omitempty"`
+}
+
+func (c *pipelinedCase) coq() string {
+	est := coqfmt.None
+	if c.Est != 0 {
+		est = coqfmt.Some(coqfmt.Nat(c.Est))
+	}
+	return coqfmt.App("KPipelined", coqfmt.Nat(c.Clear), coqfmt.Nats(c.Auths), est)
+}
+
+// runPipelined: a TLS-only server; the peer writes its selection of TLS and, in the same write (so in clear),
+// an authenticating envelope for identity 2; it then completes the TLS handshake and authenticates as
+// identity 1 under TLS.
+func runPipelined() *pipelinedCase {
+	c := &pipelinedCase{Pipelined: true, Clear: 2}
+	conf := confsByName("tls-only")[0]
+	oracle := &SOracle{Name: "everyone-is-a-member", Auth: []AuthRow{{1, "plain", ip(1), 0, "role"}, {2, "plain", ip(2), 0, "role"}}, Reg: []RegRow{}}
+	srv := newScriptServer(conf, oracle)
+	defer srv.Close()
+	cmem, smem := memconn.Pipe(0)
+	defer cmem.Close()
+	defer smem.Close()
+	sc, cc := testTLS()
+	st := lime.NewTCPTransportOverConn(smem, true, &lime.TCPConfig{TLSConfig: sc})
+	srv.mu.Lock()
+	srv.calls = nil
+	srv.round = map[string]int{}
+	srv.cur = st
+	srv.mu.Unlock()
+	srv.l.ch <- st
+	_ = cmem.SetDeadline(time.Now().Add(5 * time.Second))
+	r := bufio.NewReader(cmem)
+	readSes := func(rd *bufio.Reader) map[string]interface{} {
+		line, err := rd.ReadBytes('\n')
+		if err != nil {
+			return nil
+		}
+		var m map[string]interface{}
+		_ = json.Unmarshal(line, &m)
+		return m
+	}
+	_, _ = cmem.Write([]byte(`{"state":"new"}` + "\n"))
+	offer := readSes(r)
+	if offer == nil {
+		c.Note = "no offer"
+		return c
+	}
+	sid, _ := offer["id"].(string)
+	auth := func(n int) string {
+		return fmt.Sprintf(`{"state":"authenticating","id":"%s","from":"%s","scheme":"plain","authentication":{"password":"%s"}}`,
+			sid, clientNode(n), base64.StdEncoding.EncodeToString([]byte(fmt.Sprintf("c%d", n))))
+	}
+	// one segment: the selection, and behind it the credentials of identity 2, in clear
+	_, _ = cmem.Write([]byte(fmt.Sprintf(`{"state":"negotiating","id":"%s","encryption":"tls","compression":"none"}`, sid) + "\n" + auth(2) + "\n"))
+	if conf := readSes(r); conf == nil {
+		c.Note = "no confirmation"
+		return c
+	}
+	buffered, _ := r.Peek(r.Buffered())
+	tc := tls.Client(&prefixConn{Conn: cmem, pre: append([]byte(nil), buffered...)}, cc)
+	if err := tc.Handshake(); err != nil {
+		c.Note = "tls handshake: " + err.Error()
+	} else {
+		tr := bufio.NewReader(tc)
+		if m := readSes(tr); m != nil && m["state"] == "authenticating" {
+			_, _ = tc.Write([]byte(auth(1) + "\n"))
+			if e := readSes(tr); e != nil && e["state"] == "established" {
+				if to, ok := e["to"].(string); ok && len(to) > 1 {
+					// the registered node is r<100+from>
+					n := tokenOfName(strings.SplitN(to, "@", 2)[0])
+					if n >= 100 {
+						n -= 100
+					}
+					c.Est = n
+				}
+			}
+		}
+	}
+	time.Sleep(2 * time.Millisecond)
+	srv.mu.Lock()
+	for _, call := range srv.calls {
+		if call.Kind == "auth" {
+			c.Auths = append(c.Auths, call.From)
+		}
+	}
+	srv.mu.Unlock()
+	return c
 }
